@@ -70,6 +70,7 @@ package pubsub
 //@   modifies tfields(self)
 //@   ensures tinv(self)
 //@   ensures tlen(self) == old(tlen(self)) - 1
+//@   ensures room: old(tcap(self) >= tlen(self)) ==> tcap(self) > tlen(self)
 
 //@ func (*queueNoLimitTrackerImpl).len
 //@   props C05 C06 C13
@@ -272,3 +273,281 @@ package pubsub
 //@   ensures q.closed == old(q.closed)
 //@   modifies q.back, old(q.back).link, q.view, tfields(q.tracker), qwakes(q)
 //@   loop 1 invariant held(q.mu) && qinv(q) && qcounters(q) && wkNE(q) && wkUI(q) && unmodified(qguarded(q))
+
+// ---------------------------------------------------------------------------
+// Deque: circular doubly linked list around a root sentinel.
+// Ghost view: dq.view = the members front to back (root excluded); e.idx = the
+// position of a member in the view. Popped elements keep next/prev/list (an
+// iterator may still stand on them); the invariant speaks about members only.
+// ---------------------------------------------------------------------------
+
+//@ ghost Deque.view seq
+//@ ghost element.idx int
+//@ ghost element.guard ref
+//@ guarded element.{next,prev} by ghost:guard
+
+//@ pred dqinv(dq *Deque) = dq != nil && dq.root != nil && allocated(dq.root) && dq.root.root && dq.root.list == dq && dq.root.guard == dq.mtx
+//@ |  && len(dq.view) >= 0 && dq.tracker != nil && tinv(dq.tracker) && tlen(dq.tracker) == len(dq.view) && tguard(dq.tracker) == dq.mtx && tcap(dq.tracker) >= 1
+//@ |  && dq.nfront != nil && dq.nback != nil && dq.updates != nil && dq.nfront != dq.nback && dq.nfront != dq.updates && dq.nback != dq.updates
+//@ |  && (len(dq.view) == 0 ==> dq.root.next == dq.root && dq.root.prev == dq.root)
+//@ |  && (len(dq.view) > 0 ==> dq.root.next == dq.view[0] && dq.root.prev == dq.view[len(dq.view) - 1] && cast(dq.view[0], "*element").prev == dq.root && cast(dq.view[len(dq.view) - 1], "*element").next == dq.root)
+//@ |  && (forall i: int :: 0 <= i && i < len(dq.view) ==> allocated(dq.view[i]) && dq.view[i] != dq.root && cast(dq.view[i], "*element").list == dq && !cast(dq.view[i], "*element").root && cast(dq.view[i], "*element").idx == i && cast(dq.view[i], "*element").guard == dq.mtx)
+//@ |  && (forall i: int :: 0 <= i && i < len(dq.view) - 1 ==> cast(dq.view[i], "*element").next == dq.view[i + 1])
+//@ |  && (forall i: int :: 1 <= i && i < len(dq.view) ==> cast(dq.view[i], "*element").prev == dq.view[i - 1])
+
+// dmember: e is currently a member of dq; dpos: the index at which an element
+// inserted after e lands.
+//@ pred dmember(dq *Deque, e *element) = e != nil && 0 <= e.idx && e.idx < len(dq.view) && dq.view[e.idx] == e
+//@ pred dpos(dq *Deque, e *element) int = e == dq.root ? 0 : e.idx + 1
+//@ pred dfull(t ref) = tcap(t) == tlen(t)
+
+//@ modset dwakes(dq) = cast(dq, "*Deque").wNF, cast(dq, "*Deque").sNF, cast(dq, "*Deque").wNB, cast(dq, "*Deque").sNB, cast(dq, "*Deque").wUP, cast(dq, "*Deque").sUP, cast(dq, "*Deque").wFI, cast(dq, "*Deque").sFI, cast(dq, "*Deque").wBI, cast(dq, "*Deque").sBI
+//@ ghost Deque.wNF int
+//@ ghost Deque.sNF int
+//@ ghost Deque.wNB int
+//@ ghost Deque.sNB int
+//@ ghost Deque.wUP int
+//@ ghost Deque.sUP int
+//@ ghost Deque.wFI int
+//@ ghost Deque.sFI int
+//@ ghost Deque.wBI int
+//@ ghost Deque.sBI int
+
+//@ func makeDeque
+//@   props C06
+//@   ensures fresh(result) && result.root != nil && result.root.root && result.root.list == result && result.root.next == result.root && result.root.prev == result.root
+//@   ensures result.mtx != nil && result.nfront != nil && result.nback != nil && result.updates != nil && result.nfront != result.nback && result.nfront != result.updates && result.nback != result.updates && result.closed == false && result.tracker == nil && len(result.view) == 0
+//@   ghostset result.view = []
+//@   ghostset result.root.guard = result.mtx
+
+// addAfter: the sequential push. Closed: ErrQueueClosed; tracker refuses: that
+// error; both without effect. Otherwise the new element is spliced in after
+// `after` (the root or a member).
+//@ func (*Deque).addAfter
+//@   props C06 C07 C13
+//@   requires dqinv(dq) && dcounters(dq) && held(dq.mtx) && after != nil && (after == dq.root || dmember(dq, after))
+//@   ensures[C07] dcounters(dq) && (old(dwkF(dq)) ==> dwkF(dq)) && (old(dwkB(dq)) ==> dwkB(dq)) && (old(dwkU(dq)) ==> dwkU(dq))
+//@   modifies after.next, old(after.next).prev, dq.view, element.idx, tfields(dq.tracker), dwakes(dq)
+//@   ghostset dq.view = (result == nil ? insert(old(dq.view), old(dpos(dq, after)), after.next) : old(dq.view))
+//@   ghostall element.idx(x) = result == nil ? (x == after.next ? old(dpos(dq, after)) : (x.list == dq && old(x.idx) >= old(dpos(dq, after)) ? old(x.idx) + 1 : old(x.idx))) : old(x.idx)
+//@   ghostset after.next.guard = (result == nil ? dq.mtx : after.next.guard)
+//@   ensures dqinv(dq)
+//@   ensures closed: old(dq.closed) ==> result == ErrQueueClosed && dq.view == old(dq.view) && tunchanged(dq.tracker)
+//@   ensures refused: !old(dq.closed) && !old(admits(dq.tracker)) ==> result == old(why(dq.tracker)) && result != nil && dq.view == old(dq.view) && tunchanged(dq.tracker)
+//@   ensures added: !old(dq.closed) && old(admits(dq.tracker)) ==> result == nil && dq.view == insert(old(dq.view), old(dpos(dq, after)), after.next) && after.next.item == value && fresh(after.next)
+
+// pop: the sequential removal of `it`. Closed, or `it` is the root sentinel
+// (empty deque): not-ok, no effect.
+//@ func (*Deque).pop
+//@   props C06 C07 C13
+//@   requires dqinv(dq) && dcounters(dq) && held(dq.mtx) && it != nil && (it == dq.root || dmember(dq, it))
+//@   ensures[C07] dcounters(dq) && (old(dwkF(dq)) ==> dwkF(dq)) && (old(dwkB(dq)) ==> dwkB(dq)) && (old(dwkU(dq)) ==> dwkU(dq))
+//@   modifies it.prev.next, it.next.prev, dq.view, element.idx, tfields(dq.tracker), dwakes(dq)
+//@   ghostset dq.view = (result1 ? remove(old(dq.view), old(it.idx)) : old(dq.view))
+//@   ghostall element.idx(x) = result1 && x.list == dq && old(x.idx) > old(it.idx) ? old(x.idx) - 1 : old(x.idx)
+//@   ensures dqinv(dq)
+//@   ensures rejected: (old(dq.closed) || it == dq.root) ==> result1 == false && dq.view == old(dq.view) && tunchanged(dq.tracker) && unmodified(dguarded(dq), dwakes(dq))
+//@   ensures popped: !(old(dq.closed) || it == dq.root) ==> result1 == true && result0 == it.item && dq.view == remove(old(dq.view), old(it.idx))
+//@   ensures room: !(old(dq.closed) || it == dq.root) && old(tcap(dq.tracker) >= tlen(dq.tracker)) ==> tcap(dq.tracker) > tlen(dq.tracker)
+
+// ---------------------------------------------------------------------------
+// Deque under its mutex: every public method is one critical section of
+// dq.mtx (blocking methods: the last section is the effect section).
+// ---------------------------------------------------------------------------
+
+//@ lockinv Deque.mtx(dq) = dqinv(dq)
+//@ lockhavoc Deque.mtx(dq) = dq.closed, dq.view, element.next, element.prev, element.idx, tfields(dq.tracker), dq.wNF, dq.sNF, dq.wNB, dq.sNB, dq.wUP, dq.sUP, dq.wFI, dq.sFI, dq.wBI, dq.sBI
+//@ stutter Deque.mtx(dq) = unmodified(dq.closed, dq.view, element.next, element.prev, tfields(dq.tracker))
+//@ cond Deque.nfront lock mtx
+//@ cond Deque.nback lock mtx
+//@ cond Deque.updates lock mtx
+//@ guarded Deque.{closed} by mtx
+//@ modset dguarded(dq) = cast(dq, "*Deque").closed, cast(dq, "*Deque").view, element.next, element.prev, element.idx, tfields(cast(dq, "*Deque").tracker)
+
+//@ func (*Deque).Len
+//@   props C06 C13
+//@   option old section
+//@   requires dq != nil && dq.mtx != nil && !held(dq.mtx)
+//@   ensures result == len(dq.view) && dq.view == old(dq.view) && (isNoLimit(dq.tracker) || result <= tcap(dq.tracker))
+
+//@ func (*Deque).Close
+//@   props C06 C07 C13
+//@   option old section
+//@   requires dq != nil && dq.mtx != nil && !held(dq.mtx)
+//@   ensures result == nil && dq.closed == true && dq.view == old(dq.view) && tunchanged(dq.tracker)
+//@   modifies dq.closed, dwakes(dq)
+
+//@ func (*Deque).PushFront
+//@   props C06 C07 C13
+//@   option old section
+//@   requires dq != nil && dq.mtx != nil && !held(dq.mtx)
+//@   ensures closed: old(dq.closed) ==> result == ErrQueueClosed && dq.view == old(dq.view)
+//@   ensures refused: !old(dq.closed) && !old(admits(dq.tracker)) ==> result == old(why(dq.tracker)) && result != nil && dq.view == old(dq.view)
+//@   ensures added: !old(dq.closed) && old(admits(dq.tracker)) ==> result == nil && len(dq.view) == len(old(dq.view)) + 1 && dq.view[1:] == old(dq.view) && cast(dq.view[0], "*element").item == it
+//@   ensures dq.closed == old(dq.closed) && (isNoLimit(dq.tracker) || len(dq.view) <= tcap(dq.tracker))
+//@   modifies element.next, element.prev, dq.view, element.idx, tfields(dq.tracker), dwakes(dq)
+
+//@ func (*Deque).PushBack
+//@   props C06 C07 C13
+//@   option old section
+//@   requires dq != nil && dq.mtx != nil && !held(dq.mtx)
+//@   ensures closed: old(dq.closed) ==> result == ErrQueueClosed && dq.view == old(dq.view)
+//@   ensures refused: !old(dq.closed) && !old(admits(dq.tracker)) ==> result == old(why(dq.tracker)) && result != nil && dq.view == old(dq.view)
+//@   ensures added: !old(dq.closed) && old(admits(dq.tracker)) ==> result == nil && len(dq.view) == len(old(dq.view)) + 1 && dq.view[:len(old(dq.view))] == old(dq.view) && cast(dq.view[len(dq.view) - 1], "*element").item == it
+//@   ensures dq.closed == old(dq.closed) && (isNoLimit(dq.tracker) || len(dq.view) <= tcap(dq.tracker))
+//@   modifies element.next, element.prev, dq.view, element.idx, tfields(dq.tracker), dwakes(dq)
+
+// "pops return the item currently at the requested end"; after Close (or on an
+// empty deque) not-ok without effect.
+//@ func (*Deque).PopFront
+//@   props C06 C07 C13
+//@   option old section
+//@   requires dq != nil && dq.mtx != nil && !held(dq.mtx)
+//@   ensures none: (old(dq.closed) || len(old(dq.view)) == 0) ==> result1 == false && dq.view == old(dq.view)
+//@   ensures pop: !(old(dq.closed) || len(old(dq.view)) == 0) ==> result1 == true && result0 == cast(old(dq.view[0]), "*element").item && dq.view == old(dq.view)[1:]
+//@   ensures dq.closed == old(dq.closed)
+//@   modifies element.next, element.prev, dq.view, element.idx, tfields(dq.tracker), dwakes(dq)
+
+//@ func (*Deque).PopBack
+//@   props C06 C07 C13
+//@   option old section
+//@   requires dq != nil && dq.mtx != nil && !held(dq.mtx)
+//@   ensures none: (old(dq.closed) || len(old(dq.view)) == 0) ==> result1 == false && dq.view == old(dq.view)
+//@   ensures pop: !(old(dq.closed) || len(old(dq.view)) == 0) ==> result1 == true && result0 == cast(old(dq.view[len(dq.view) - 1]), "*element").item && dq.view == old(dq.view)[:len(old(dq.view)) - 1]
+//@   ensures dq.closed == old(dq.closed)
+//@   modifies element.next, element.prev, dq.view, element.idx, tfields(dq.tracker), dwakes(dq)
+
+// "a Force push on a full deque evicts exactly one item from the opposite end
+// and then succeeds"; on a deque with room nothing is evicted.
+//@ func (*Deque).ForcePushFront
+//@   props C06 C07 C13
+//@   option old section
+//@   requires dq != nil && dq.mtx != nil && !held(dq.mtx)
+//@   ensures closed: old(dq.closed) ==> result == ErrQueueClosed && dq.view == old(dq.view)
+//@   ensures full: !old(dq.closed) && old(dfull(dq.tracker)) ==> result == nil && len(dq.view) == len(old(dq.view)) && dq.view[1:] == old(dq.view)[:len(old(dq.view)) - 1] && cast(dq.view[0], "*element").item == it
+//@   ensures room: !old(dq.closed) && !old(dfull(dq.tracker)) ==> result == nil && len(dq.view) == len(old(dq.view)) + 1 && dq.view[1:] == old(dq.view) && cast(dq.view[0], "*element").item == it
+//@   ensures dq.closed == old(dq.closed) && (isNoLimit(dq.tracker) || len(dq.view) <= tcap(dq.tracker))
+//@   modifies element.next, element.prev, dq.view, element.idx, tfields(dq.tracker), dwakes(dq)
+
+//@ func (*Deque).ForcePushBack
+//@   props C06 C07 C13
+//@   option old section
+//@   requires dq != nil && dq.mtx != nil && !held(dq.mtx)
+//@   ensures closed: old(dq.closed) ==> result == ErrQueueClosed && dq.view == old(dq.view)
+//@   ensures full: !old(dq.closed) && old(dfull(dq.tracker)) ==> result == nil && len(dq.view) == len(old(dq.view)) && dq.view[:len(dq.view) - 1] == old(dq.view)[1:] && cast(dq.view[len(dq.view) - 1], "*element").item == it
+//@   ensures room: !old(dq.closed) && !old(dfull(dq.tracker)) ==> result == nil && len(dq.view) == len(old(dq.view)) + 1 && dq.view[:len(old(dq.view))] == old(dq.view) && cast(dq.view[len(dq.view) - 1], "*element").item == it
+//@   ensures dq.closed == old(dq.closed) && (isNoLimit(dq.tracker) || len(dq.view) <= tcap(dq.tracker))
+//@   modifies element.next, element.prev, dq.view, element.idx, tfields(dq.tracker), dwakes(dq)
+
+// ---------------------------------------------------------------------------
+// Deque wake-up accounting (C07). Waiter kinds: take = WaitFront / WaitBack
+// (waitPop) parked on nfront / nback; iter = a blocking iterator standing at
+// that end of the deque; push = WaitPushFront / WaitPushBack on updates.
+// Invariant per condition variable: an un-notified waiter whose condition
+// holds implies a notified waiter on the same condition variable is pending
+// (every notified waiter either passes the baton with Signal before it parks
+// again or, when it returns, its helper goroutine broadcasts).
+// ---------------------------------------------------------------------------
+
+//@ waitkind Deque.nfront take wNF sNF = len(dq.view) > 0 || dq.closed
+//@ waitkind Deque.nfront iter wFI sFI = dq.closed
+//@ waitkind Deque.nback take wNB sNB = len(dq.view) > 0 || dq.closed
+//@ waitkind Deque.nback iter wBI sBI = dq.closed
+//@ waitkind Deque.updates push wUP sUP = tcap(dq.tracker) > tlen(dq.tracker) || dq.closed
+
+//@ pred dcounters(dq *Deque) = dq.wNF >= 0 && dq.sNF >= 0 && dq.wNB >= 0 && dq.sNB >= 0 && dq.wUP >= 0 && dq.sUP >= 0 && dq.wFI >= 0 && dq.sFI >= 0 && dq.wBI >= 0 && dq.sBI >= 0
+//@ pred dwkF(dq *Deque) = (dq.wNF > 0 && (len(dq.view) > 0 || dq.closed) ==> dq.sNF + dq.sFI > 0) && (dq.wFI > 0 && dq.closed ==> dq.sNF + dq.sFI > 0)
+//@ pred dwkB(dq *Deque) = (dq.wNB > 0 && (len(dq.view) > 0 || dq.closed) ==> dq.sNB + dq.sBI > 0) && (dq.wBI > 0 && dq.closed ==> dq.sNB + dq.sBI > 0)
+//@ pred dwkU(dq *Deque) = dq.wUP > 0 && (tcap(dq.tracker) > tlen(dq.tracker) || dq.closed) ==> dq.sUP > 0
+//@ pred dqwake(dq *Deque) = dcounters(dq) && dwkF(dq) && dwkB(dq) && dwkU(dq)
+//@ lockinv[C07] Deque.mtx(dq) = dqwake(dq)
+
+// element.wait: park until the neighbour of `it` in the given direction
+// changes. Callers: waitPop (kind take: `it` is the root of an EMPTY deque - a
+// call made while an item is available must not park) and the blocking
+// iterators (kind iter: `it` is the element at that end of the deque).
+//@ pred atEnd(it *element, direction bool) = direction ? it.prev == it.list.root : it.next == it.list.root
+//@ func (*element).wait
+//@   props C07 C13
+//@   option old section
+//@   option waits
+//@   option waitkinds take iter
+//@   requires it != nil && it.list != nil && it.list.mtx != nil && held(it.list.mtx) && dqinv(it.list) && dqwake(it.list) && ctx != nil
+//@   requires takes: waitkind("take") ==> it == it.list.root && len(it.list.view) == 0
+//@   requires iters: waitkind("iter") ==> (it == it.list.root || dmember(it.list, it)) && atEnd(it, direction)
+//@   modifies dguarded(it.list), dwakes(it.list)
+//@   ensures held(it.list.mtx) && dqinv(it.list)
+//@   ensures[C07] dqwake(it.list)
+//@   ensures noeffect: unmodified(dguarded(it.list))
+//@   ensures woken: result == nil && waitkind("take") ==> len(it.list.view) > 0
+//@   ensures failed: result != nil ==> (result == ErrQueueClosed && it.list.closed) || (result != ErrQueueClosed && done(ctx))
+//@   loop 1 invariant held(it.list.mtx) && dqinv(it.list) && dcounters(it.list) && dwkU(it.list) && unmodified(dguarded(it.list))
+//@   loop 1 invariant waitkind("take") ==> next == it.list.root
+//@   loop 1 invariant (cond != it.list.nfront ==> dwkF(it.list)) && (cond != it.list.nback ==> dwkB(it.list))
+
+// waitPop: the blocking pop at one end. "A call made while the condition
+// already holds (WaitFront on a non-empty deque) does not block": the only
+// park is element.wait on the root of an empty deque.
+//@ func (*Deque).waitPop
+//@   props C06 C07 C13
+//@   option old section
+//@   option waits
+//@   option waitkind take
+//@   requires dq != nil && dq.mtx != nil && held(dq.mtx) && dqinv(dq) && dqwake(dq) && ctx != nil
+//@   modifies dguarded(dq), dwakes(dq)
+//@   ensures held(dq.mtx) && dqinv(dq)
+//@   ensures[C07] dqwake(dq)
+//@   ensures item: result1 == nil ==> !old(dq.closed) && len(old(dq.view)) > 0 && (direction ? result0 == cast(old(dq.view[len(dq.view) - 1]), "*element").item && dq.view == old(dq.view)[:len(old(dq.view)) - 1] : result0 == cast(old(dq.view[0]), "*element").item && dq.view == old(dq.view)[1:])
+//@   ensures noitem: result1 != nil ==> unmodified(dguarded(dq)) && ((result1 == ErrQueueClosed && dq.closed) || (result1 != ErrQueueClosed && done(ctx)))
+//@   ensures dq.closed == old(dq.closed)
+//@   loop 1 invariant held(dq.mtx) && dqinv(dq) && dqwake(dq) && unmodified(dguarded(dq))
+
+//@ func (*Deque).WaitFront
+//@   props C06 C07 C13
+//@   option old section
+//@   option waitkind take
+//@   requires dq != nil && dq.mtx != nil && !held(dq.mtx) && ctx != nil
+//@   ensures item: result1 == nil ==> !old(dq.closed) && len(old(dq.view)) > 0 && result0 == cast(old(dq.view[0]), "*element").item && dq.view == old(dq.view)[1:]
+//@   ensures noitem: result1 != nil ==> dq.view == old(dq.view) && tunchanged(dq.tracker) && ((result1 == ErrQueueClosed && dq.closed) || (result1 != ErrQueueClosed && done(ctx)))
+//@   ensures dq.closed == old(dq.closed)
+//@   modifies element.next, element.prev, dq.view, element.idx, tfields(dq.tracker), dwakes(dq)
+
+//@ func (*Deque).WaitBack
+//@   props C06 C07 C13
+//@   option old section
+//@   option waitkind take
+//@   requires dq != nil && dq.mtx != nil && !held(dq.mtx) && ctx != nil
+//@   ensures item: result1 == nil ==> !old(dq.closed) && len(old(dq.view)) > 0 && result0 == cast(old(dq.view[len(dq.view) - 1]), "*element").item && dq.view == old(dq.view)[:len(old(dq.view)) - 1]
+//@   ensures noitem: result1 != nil ==> dq.view == old(dq.view) && tunchanged(dq.tracker) && ((result1 == ErrQueueClosed && dq.closed) || (result1 != ErrQueueClosed && done(ctx)))
+//@   ensures dq.closed == old(dq.closed)
+//@   modifies element.next, element.prev, dq.view, element.idx, tfields(dq.tracker), dwakes(dq)
+
+// waitPushAfter is verified inlined into its two callers (the real code, with
+// the closures that select the end); its wait loop carries the invariant.
+//@ func (*Deque).waitPushAfter
+//@   inline
+//@   loop 1 invariant held(dq.mtx) && dqinv(dq) && dcounters(dq) && dwkF(dq) && dwkB(dq) && unmodified(dguarded(dq))
+
+//@ func (*Deque).WaitPushFront
+//@   props C06 C07 C13
+//@   option old section
+//@   option waitkind push
+//@   requires dq != nil && dq.mtx != nil && !held(dq.mtx) && ctx != nil
+//@   ensures closed: result == ErrQueueClosed ==> dq.closed && dq.view == old(dq.view) && tunchanged(dq.tracker)
+//@   ensures added: result == nil ==> !old(dq.closed) && old(admits(dq.tracker)) && len(dq.view) == len(old(dq.view)) + 1 && dq.view[1:] == old(dq.view) && cast(dq.view[0], "*element").item == it
+//@   ensures failed: result != nil ==> dq.view == old(dq.view) && tunchanged(dq.tracker)
+//@   ensures ctxerr: result != nil && result != ErrQueueClosed && !(!old(admits(dq.tracker)) && result == old(why(dq.tracker))) ==> done(ctx)
+//@   ensures dq.closed == old(dq.closed)
+//@   modifies element.next, element.prev, dq.view, element.idx, tfields(dq.tracker), dwakes(dq)
+
+//@ func (*Deque).WaitPushBack
+//@   props C06 C07 C13
+//@   option old section
+//@   option waitkind push
+//@   requires dq != nil && dq.mtx != nil && !held(dq.mtx) && ctx != nil
+//@   ensures closed: result == ErrQueueClosed ==> dq.closed && dq.view == old(dq.view) && tunchanged(dq.tracker)
+//@   ensures added: result == nil ==> !old(dq.closed) && old(admits(dq.tracker)) && len(dq.view) == len(old(dq.view)) + 1 && dq.view[:len(old(dq.view))] == old(dq.view) && cast(dq.view[len(dq.view) - 1], "*element").item == it
+//@   ensures failed: result != nil ==> dq.view == old(dq.view) && tunchanged(dq.tracker)
+//@   ensures ctxerr: result != nil && result != ErrQueueClosed && !(!old(admits(dq.tracker)) && result == old(why(dq.tracker))) ==> done(ctx)
+//@   ensures dq.closed == old(dq.closed)
+//@   modifies element.next, element.prev, dq.view, element.idx, tfields(dq.tracker), dwakes(dq)
